@@ -75,6 +75,10 @@ add("C13", E2,
     "Runtime monitor: the real RpkiClient::serve_inner over tokio::io::duplex against a conforming-cache model (reset and serial responses, v0/v1 End of Data, Serial Notify, Cache Reset, Error Report, Router Key PDUs, serial / session-id wrap, random fragmentation, connection loss at and inside PDU boundaries, cancel, reconnect, two caches on one TableManager), all PDUs built byte by byte; after every consumed End of Data the VRPs installed for that cache (collect_roa by source) must equal the fold of the cache's responses, the other cache's VRPs are untouched, all are gone after the session ends, and a parked client with a complete PDU unconsumed is a stall. A second workload drives the real try_connect over loopback TCP and cancels it as DisableRpki does.",
     "Trusted: the cache model (RFC 6810/8210) and the state-based quiescence (client parked with every byte consumed); the client ignoring Cache Reset is counted unjudged.",
     "runtime monitoring: protocol peer model + fold-of-history oracle at quiescent points")
+add("C16", E2,
+    "Runtime monitor: generated configurations (static neighbours, peer groups with dynamic prefixes incl. unaligned / host-bit prefixes, confederation, route-server and reflector clients, per-family add-path / GR / LLGR / prefix limits, passive, admin-down) are loaded through the real gRPC handlers or config text -> validate -> Global::apply_config; real loopback TCP connections from 127.x.y.z and ::1 enter accept_connection in both roles while histories connect, disconnect, enable, disable, delete, re-add (also while connected) and add/delete prefixes; accepted sessions run PeerSession::run. Judged: admission against independent prefix arithmetic, zero bytes written to refused connections, the session's role / local AS / expected AS / hold time / families / add-path / GR / LLGR / prefix limits / export policy / cluster id against the neighbour's or group's configuration, dynamic-neighbour cleanup. Mirror part (E1 + E2): PeerCodec::negotiate, negotiate_gr / negotiate_llgr and the FSM's effective send-max computed from both ends' capability lists (raw, decoded through the real OPEN encode -> decode, with duplicates) must be mirror images.",
+    "Trusted: the monitor's own prefix arithmetic and configuration model; cases the statement leaves open (a refusable configured neighbour inside a dynamic prefix, precedence among overlapping groups) are counted unjudged.",
+    "runtime monitoring: reference-model oracle on real accept_connection over loopback TCP + mirror-image (symmetry) invariant on negotiation over generated capability lists")
 add("C17", E2,
     "Runtime monitor: (a) round trip attr_to_api->attr_from_api and nlri_to_api->net_from_api on values obtained by decoding hand-built UPDATEs for all 19 families and attribute kinds; (b) totality: directed + random API messages under catch_unwind, every accepted value checked by an independent validator written from the wire rules and then used (Table insert next to competing paths, apply_import with 13 conditions, RPKI validate, export for 5 roles, encode_to with 2/4-octet AS, display) - a panic there is a violation; (c) store-and-show through the real GrpcService add_path -> list_path -> delete_path for all families.",
     "Trusted: the wire-rule validator and the documented canonicalisations of local_path (ORIGIN/AS_PATH defaults, ORIGINATOR_ID/CLUSTER_LIST/MP_UNREACH dropped, next hop as NEXT_HOP or MP_REACH). In-process calls, no gRPC transport. Debug profile only (E2).",
